@@ -449,6 +449,7 @@ type Other { title: String }`
 		os.RemoveAll(a.dir)
 		os.RemoveAll(b.dir)
 	}
+	replMultiScenarios(e, basePort+2*nScen+4)
 	e.writeCasesSharded("cases_C15", "CorrC15", "replcase", cases, 300)
 }
 
